@@ -355,6 +355,29 @@ impl Property for C16 {
                 Err(e) => return Err(Violation::new("c16.recover", "recover_err_after_failed_attempt", format!("the genuine collection ({} distinct shares, t={}) recovered before, but after refused collections (foreign transcript mixed in / one ciphertext byte altered) it no longer does: {}", d_own, t, e))),
             }
         }
+        // ---- copies outlive their originals: a share is a value. The combiner keeps clones of what it
+        // received, the received objects (and the other transcript's) are dropped, and the clones must still
+        // encode to the same bytes and recover as before.
+        if tid == 0 && t >= 1 && !own.is_empty() {
+            let wires: Vec<Vec<u8>> = own.iter().map(|s| s.to_bytes()).collect();
+            let copies: Vec<Share> = own.iter().cloned().collect();
+            drop(own);
+            drop(other);
+            drop(shares);
+            for (i, c) in copies.iter().enumerate() {
+                if c.to_bytes() != wires[i] {
+                    return Err(Violation::new("c16.nondeterministic_field", "clone_changed_after_original_dropped", format!("the encoding of a cloned share changed once the share it was cloned from had been dropped (share {} of {})", i, copies.len())));
+                }
+            }
+            let r = recover(&copies);
+            if d_own >= t as usize {
+                match r {
+                    Ok(c) if c.get_message() == m => ctx.stats.probe("clones_recover_after_originals_dropped"),
+                    Ok(_) => return Err(Violation::new("c16.recover", "clones_wrong_message", "clones of the delivered shares recovered another message once the originals had been dropped")),
+                    Err(e) => return Err(Violation::new("c16.recover", "clones_err", format!("clones of {} distinct delivered shares (t={}) did not recover once the originals had been dropped: {}", d_own, t, e))),
+                }
+            }
+        }
         Ok(())
     }
     fn real_components(&self) -> Vec<&'static str> {
